@@ -106,29 +106,36 @@ def tlc_orders(graphs, scratch, *, per_graph=3, seed=0, exhaustive_upto=0, timeo
     stats = {"generated": 0, "distinct": 0}
     small = [i for i, g in enumerate(graphs) if g["n"] <= exhaustive_upto]
     large = [i for i, g in enumerate(graphs) if g["n"] > exhaustive_upto]
-    rounds = [(small, "bfs", 0)] + [(large, "sim", r) for r in range(4)]
+    rounds = [(small, "bfs", 0), (large, "sampled", 0)]
     for idxs, mode, rnd in rounds:
-        if mode == "sim":
-            idxs = [i for i in idxs if len(out[i]) < min(per_graph, 1 if rnd else per_graph)]
         if not idxs:
             continue
         path = os.path.join(scratch, f"graphs_{time.time_ns()}.json")
         T.write_json(path, {"graphs": [graphs[i] for i in idxs]})
+        cfg = os.path.join(scratch, f"TaskGraph_{mode}_{time.time_ns()}.cfg")
+        with open(cfg, "w") as f:
+            if mode == "bfs":
+                f.write("SPECIFICATION Spec\nCONSTANT K = 1\nCONSTANT Seed = 0\n")
+            else:
+                # SpecSampled: one admissible schedule per (graph, k), drawn reproducibly from the seed
+                f.write(f"SPECIFICATION SpecSampled\nCONSTANT K = {per_graph}\nCONSTANT Seed = {abs(int(seed)) % 65521}\n")
+            f.write("INVARIANT DepClosed\nINVARIANT OrderOK\nINVARIANT NoStuck\nCHECK_DEADLOCK FALSE\n")
         kw = {}
-        if mode == "sim":
-            depth = max(graphs[i]["n"] for i in idxs) + 2
-            kw = dict(simulate=f"num={per_graph * len(idxs) * 4 + 8}", depth=depth, seed=seed + rnd, workers=1)
-        res = T.run_tlc("sched/TaskGraph.tla", "TaskGraph.cfg", env={"GRAPH_FILE": path}, timeout=timeout,
-                        scratch=scratch, **kw)
+        res = T.run_tlc("sched/TaskGraph.tla", cfg, env={"GRAPH_FILE": path}, timeout=timeout, scratch=scratch, **kw)
         os.unlink(path)
+        os.unlink(cfg)
         if res.timed_out or res.rc != 0:
             raise MachineryError(f"TaskGraph ({mode}): TLC rc={res.rc} {res.errors[:2]}\n" + "\n".join(res.stdout.splitlines()[-20:]))
         stats["generated"] += res.generated
         stats["distinct"] += res.distinct
         for _, gi, order in res.printed("O"):
             lst = out[idxs[gi - 1]]
-            if order not in lst and (mode == "bfs" or len(lst) < per_graph):
+            if order not in lst:
                 lst.append(order)
+    for i in out:
+        out[i].sort()      # TLC workers print in any order: make the result a function of (graphs, seed)
+        if graphs[i]["n"] > exhaustive_upto:
+            out[i] = out[i][:per_graph]
     for i, lst in out.items():
         if not lst:
             raise MachineryError(f"TLC produced no schedule for graph {i} (n={graphs[i]['n']})")
